@@ -91,3 +91,11 @@ Theorem C08_source_appenders :
           ["EnterName_with_attribs"; "EnterTable"; "EnterField"; "EnterSimple_endpoint"; "EnterMethod_def"]%string = true.
 Proof. exact appenders_ok. Qed.
 Print Assumptions C08_source_appenders.
+
+(* declaration order across files = flatten order (depth-first preorder of the import graph, textual order) *)
+Theorem C08_decl_count_spec : forall fs g k,
+  map (fun c => (cfile c, cstart c)) (contexts_of k (compile_spec fs g))
+  = map (fun d => (d_file d, start_of (positions (d_dl d) (d_lines d)) (d_first d)))
+        (filter (fun d => d_key d =? k) (declarations (map (fun i => nth (N.to_nat i) fs dfile) (flatten g)))).
+Proof. exact decl_count_spec. Qed.
+Print Assumptions C08_decl_count_spec.
